@@ -1,6 +1,7 @@
 """property registry"""
 import os
 import e1props
+import e2props
 
 
 def replay(prop, path):
@@ -17,4 +18,5 @@ def replay(prop, path):
 REGISTRY = {
     'C06': e1props.c06,
     'C19': e1props.c19,
+    'C15': e2props.c15,
 }
